@@ -67,8 +67,13 @@ def gen_default(rng, kinds=None):
                           "pcode": P_CODE}[k])
 
 
-def gen_def(rng, kind=None, name=None, safe=False, allow_vararg=True):
-    """returns (source of one def at column 0, info dict)"""
+RECEIVER_NAMES = ["self", "cls"]
+
+
+def gen_def(rng, kind=None, name=None, safe=False, allow_vararg=True, receiver_names=0.0):
+    """returns (source of one def at column 0, info dict).
+    receiver_names: probability that an ordinary parameter which is NOT the first positional one (a later positional or a
+    keyword-only parameter) is called `self` / `cls`: for Python such a parameter is just a parameter."""
     used = set()
     tags = []
     parts = []
@@ -78,6 +83,15 @@ def gen_def(rng, kind=None, name=None, safe=False, allow_vararg=True):
         used.add(kind)
     npos = rng.choice([0, 1, 2, 2, 3, 4])
     pos = [n for n in (_uniq(rng, ARG_NAMES, used) for _ in range(npos)) if n]
+    recv_kwonly = None
+    if receiver_names and rng.random() < receiver_names:
+        rn = _uniq(rng, RECEIVER_NAMES, used)
+        first_free = 0 if kind in ("self", "cls") else 1      # slot 0 of a static definition would make it a method
+        if rn is not None and len(pos) > first_free and rng.random() < 0.8:
+            pos[rng.randrange(first_free, len(pos))] = rn
+            tags.append("receiver-name:positional")
+        elif rn is not None:
+            recv_kwonly = rn
     ndef = rng.randint(0, len(pos))
     sig_names = []
     dk = ["lit", "lit", "cont", "pcode"] if safe else None
@@ -96,8 +110,11 @@ def gen_def(rng, kind=None, name=None, safe=False, allow_vararg=True):
         parts.append("*args")
         tags.append("vararg")
         used.add("args")
-    if rng.random() < 0.35:
+    if rng.random() < 0.35 or recv_kwonly:
         kws = [n for n in (_uniq(rng, ARG_NAMES, used) for _ in range(rng.choice([1, 2]))) if n]
+        if recv_kwonly:
+            kws[rng.randrange(len(kws) + 1):0] = [recv_kwonly]
+            tags.append("receiver-name:kwonly")
         if kws:
             if "*args" not in parts:
                 parts.append("*")
@@ -183,7 +200,7 @@ def gen_def(rng, kind=None, name=None, safe=False, allow_vararg=True):
     return src, {"tags": tags, "kind": kind, "sig_names": sig_names, "kwarg": kwn, "documented": dn, "name": fname}
 
 
-def gen_class(rng):
+def gen_class(rng, receiver_names=0.0):
     """a class with an __init__ (usually), other methods, attributes, nested defs"""
     lines = ["class C(object):"]
     if rng.random() < 0.6:
@@ -198,7 +215,8 @@ def gen_class(rng):
     tags = []
     for m in order:
         if rng.random() < 0.75:
-            src, info = gen_def(rng, kind=rng.choice(["self", "self", "self", "static", "cls"]), name=m)
+            src, info = gen_def(rng, kind=rng.choice(["self", "self", "self", "static", "cls"]), name=m,
+                                receiver_names=receiver_names)
             if rng.random() < 0.1:
                 lines.append("    if True:")
                 lines += ["        " + l if l else "" for l in src.rstrip("\n").split("\n")]
@@ -268,7 +286,7 @@ def gen(rng, n, tier="quick"):
     while len(cases) < n:
         r = rng.random()
         if r < 0.50:
-            src, info = gen_def(rng)
+            src, info = gen_def(rng, receiver_names=0.06)
             if not _ok_source(src):
                 continue
             fd = ast.parse(src).body[0]
@@ -284,7 +302,7 @@ def gen(rng, n, tier="quick"):
             ordk = rng.choice(["sorted", "reversed", "rotated"])
             add("parse_function", [src, infer_type, rng.random() < 0.8, ft, fnm, ordk], info["tags"] + ["order:" + ordk])
         elif r < 0.62:
-            src, tags = gen_class(rng)
+            src, tags = gen_class(rng, receiver_names=0.06)
             if not _ok_source(src):
                 continue
             cd = ast.parse(src).body[0]
@@ -300,7 +318,7 @@ def gen(rng, n, tier="quick"):
             ordk = rng.choice(["sorted", "reversed", "rotated"])
             add("merge_inner_function", [src, infer_type, name, ordk], tags + ["class", "order:" + ordk])
         elif r < 0.72:
-            src, info = gen_def(rng, safe=True)
+            src, info = gen_def(rng, safe=True, receiver_names=0.06)
             if not _ok_source(src):
                 continue
             add("py_signature", [src, rng.random() < 0.5], info["tags"] + ["pysig"])
